@@ -24,10 +24,11 @@ type mTop struct {
 	Value int    `json:"value"`
 }
 type mResult struct {
-	Ok   bool   `json:"ok"`
-	Cls  string `json:"cls"`
-	Left uint64 `json:"left"`
-	Ret  int    `json:"ret"`
+	Ok     bool   `json:"ok"`
+	Cls    string `json:"cls"`
+	Left   uint64 `json:"left"`
+	Ret    int    `json:"ret"`
+	Refund uint64 `json:"refund"` // transfer fees handed back with the result (RefundFee / RefundAllFee)
 }
 type mFrame struct {
 	ID   int    `json:"id"`
@@ -35,6 +36,7 @@ type mFrame struct {
 	Cls  string `json:"cls"`
 	Sup  uint64 `json:"sup"`
 	Back uint64 `json:"back"`
+	Ref  uint64 `json:"ref"`
 }
 type mWorld struct {
 	Bal    []int   `json:"bal"`
@@ -45,6 +47,7 @@ type mWorld struct {
 	Logs   [][]int `json:"logs"`
 	Dead   []int   `json:"dead"`
 	Code   []int   `json:"code"`
+	Ex     []int   `json:"ex"` // native call targets (the last nDyn accounts) present in the state
 	Refund uint64  `json:"refund"`
 }
 type behaviour struct {
@@ -53,6 +56,8 @@ type behaviour struct {
 	Result mResult  `json:"result"`
 	Frames []mFrame `json:"frames"`
 	World  mWorld   `json:"world"`
+	Fees   []uint64 `json:"fees"`  // evm.fees at the end
+	RFees  []uint64 `json:"rfees"` // evm.refundFees at the end
 }
 
 // signature: the kind and failure class of the first failed frame (stable key part).
@@ -61,6 +66,11 @@ func (b *behaviour) signature() string {
 	for _, o := range b.Ops {
 		if o.Op == "call" || o.Op == "create" {
 			kinds[o.ID] = o.Kind
+			if o.Tg == tgFresh {
+				kinds[o.ID] += "-fresh"
+			} else if o.Tg != 0 {
+				kinds[o.ID] += "-precompile"
+			}
 		}
 	}
 	for _, f := range b.Frames {
@@ -76,7 +86,11 @@ func (b *behaviour) compact() string {
 	for _, o := range b.Ops {
 		t := fmt.Sprintf("%d@%d:%s", o.ID, o.Frame, o.Op)
 		if o.Op == "call" {
-			t += fmt.Sprintf("(%s,v=%d,gas=%d)", o.Kind, o.V, o.Req)
+			t += fmt.Sprintf("(%s,v=%d,gas=%d", o.Kind, o.V, o.Req)
+			if o.Tg != 0 {
+				t += fmt.Sprintf(",native=%d", o.Tg)
+			}
+			t += ")"
 		} else if o.Op == "create" {
 			t += fmt.Sprintf("(v=%d)", o.V)
 		}
@@ -95,6 +109,7 @@ type program struct {
 	rootTok int
 	addrs   map[int]common.Address // model account -> concrete address (filled by bind)
 	rootAdr common.Address
+	nacc0   int // model accounts 1..nacc0 are the named ones and one per op; nacc0+1..nacc0+nDyn the native call targets
 }
 
 func (p *program) accounts() []account {
@@ -107,7 +122,7 @@ func (p *program) accounts() []account {
 			tok: map[common.Address]*big.Int{p.nm.token: amount(p.nm.tunit, p.rootTok)}})
 	}
 	walk(p.root, func(f *frameNode, n *opNode) {
-		if n.Op == "call" {
+		if n.Op == "call" && n.child != nil {
 			ac = append(ac, account{addr: childAddr(n.ID), code: n.child.code})
 		}
 	})
@@ -163,6 +178,12 @@ func (p *program) bind() {
 		}
 	}
 	rec(p.root)
+	// the native call targets: absent from the pre-state, bound whether the program names them or not
+	if p.nacc0 > 0 {
+		for t := 1; t <= nDyn; t++ {
+			p.addrs[p.nacc0+t] = p.nm.nativeAddr(t)
+		}
+	}
 }
 
 func newProgram(b *behaviour, nm names) (*program, error) {
@@ -174,6 +195,9 @@ func newProgram(b *behaviour, nm names) (*program, error) {
 		return nil, err
 	}
 	p := &program{root: root, topKind: b.Top.Kind, nm: nm, rootBal: 1, rootTok: 1}
+	if n := len(b.World.Bal); n > nDyn {
+		p.nacc0 = n - nDyn
+	}
 	p.bind()
 	return p, nil
 }
@@ -220,6 +244,16 @@ func (p *program) compareWorld(st *state.StateDB, w *mWorld, nOps int) *mismatch
 	sort.Ints(accts)
 	for _, a := range accts {
 		ad := p.addrs[a]
+		if a > p.nacc0 && p.nacc0 > 0 {
+			// a call target that is not in the pre-state: it exists exactly if the model says
+			// a call created it and no failing frame took it back
+			if got := st.Exist(ad); got != inSet(w.Ex, a) {
+				return &mismatch{"world-exist", fmt.Sprintf("account %d (%x, absent from the pre-state): real Exist=%v Empty=%v, model exists=%v", a, ad[:], got, st.Empty(ad), inSet(w.Ex, a))}
+			}
+			if want := !inSet(w.Ex, a) || w.Bal[a-1] == 0; st.Empty(ad) != want {
+				return &mismatch{"world-exist", fmt.Sprintf("account %d (%x, absent from the pre-state): real Empty=%v, model empty=%v", a, ad[:], st.Empty(ad), want)}
+			}
+		}
 		if got, ok := divUnits(st.GetBalance(ad), p.nm.unit); !ok || got != w.Bal[a-1] {
 			return &mismatch{"world-balance", fmt.Sprintf("balance of account %d (%x): real %v, model %d units of %v", a, ad[:4], st.GetBalance(ad), w.Bal[a-1], p.nm.unit)}
 		}
@@ -280,6 +314,29 @@ func (p *program) comparePersisted(st *state.StateDB, w *mWorld) *mismatch {
 		return false
 	}
 	dump := st.RawDump()
+	// the account records written are exactly those of the accounts the model knows to
+	// exist: no frame - a failed one in particular - leaves a record of its own behind
+	known := map[string]int{}
+	for a, ad := range p.addrs {
+		known[fmt.Sprintf("%x", ad[:])] = a
+	}
+	var extra []string
+	for k := range dump.Accounts {
+		a, ok := known[k]
+		if !ok || (a > p.nacc0 && p.nacc0 > 0 && !inSet(w.Ex, a)) {
+			extra = append(extra, k)
+		}
+	}
+	if len(extra) > 0 {
+		sort.Strings(extra)
+		return &mismatch{"persisted-account-set", fmt.Sprintf("finalising the transaction wrote account record(s) %v which the model does not have (a failed or refused frame left an account behind)", extra)}
+	}
+	for a := p.nacc0 + 1; p.nacc0 > 0 && a <= p.nacc0+nDyn; a++ {
+		ad := p.addrs[a]
+		if _, ok := dump.Accounts[fmt.Sprintf("%x", ad[:])]; !ok && inSet(w.Ex, a) {
+			return &mismatch{"persisted-account-set", fmt.Sprintf("account %d (%x) was created by a successful call but has no persisted record", a, ad[:])}
+		}
+	}
 	for a, ad := range p.addrs {
 		if inSet(w.Dead, a) {
 			continue
@@ -327,6 +384,8 @@ func (r runRecord) same(q runRecord) string {
 		return fmt.Sprintf("error %v vs %v", r.o.err, q.o.err)
 	case r.o.left != q.o.left:
 		return fmt.Sprintf("left-over gas %d vs %d", r.o.left, q.o.left)
+	case r.o.refundFee != q.o.refundFee || r.o.refundAll != q.o.refundAll:
+		return fmt.Sprintf("refundable fees %d/%d vs %d/%d", r.o.refundFee, r.o.refundAll, q.o.refundFee, q.o.refundAll)
 	case !bytes.Equal(r.o.ret, q.o.ret):
 		return fmt.Sprintf("return data %x vs %x", r.o.ret, q.o.ret)
 	case r.dg != q.dg:
@@ -357,6 +416,12 @@ func replayOne(b *behaviour, inst int, deep bool) (*mismatch, int, error) {
 		if o.left > b.Top.Gas {
 			return rr, &mismatch{"gas-bound", fmt.Sprintf("left-over gas %d exceeds the gas limit %d", o.left, b.Top.Gas)}, nil
 		}
+		// the caller of the top frame gets back the left-over gas and the transfer fees the
+		// EVM declares refundable (app/state_transition.go adds RefundFee() / RefundAllFee()
+		// to tx.Gas): together never more than the gas supplied
+		if hb := o.handedBack(); hb > b.Top.Gas || hb < o.left {
+			return rr, &mismatch{"gas-bound", fmt.Sprintf("left-over gas %d + refundable transfer fees %d exceed the gas limit %d (error: %v)", o.left, o.refund, b.Top.Gas, o.err)}, nil
+		}
 		if check {
 			r := b.Result
 			if (o.err == nil) != r.Ok {
@@ -367,6 +432,16 @@ func replayOne(b *behaviour, inst int, deep bool) (*mismatch, int, error) {
 			}
 			if o.left != r.Left {
 				return rr, &mismatch{"gas", fmt.Sprintf("left-over gas: real %d, model %d (limit %d)", o.left, r.Left, b.Top.Gas)}, nil
+			}
+			if o.refund != r.Refund {
+				return rr, &mismatch{"fee-refund", fmt.Sprintf("transfer fees handed back with the result (error %v): real %d (RefundFee %d, RefundAllFee %d), model %d (fees %v, refundFees %v); left-over gas %d, limit %d",
+					o.err, o.refund, o.refundFee, o.refundAll, r.Refund, b.Fees, b.RFees, o.left, b.Top.Gas)}, nil
+			}
+			if want := sumU(b.RFees); o.refundFee != want {
+				return rr, &mismatch{"fee-refund", fmt.Sprintf("RefundFee(): real %d, model %d (refundFees %v)", o.refundFee, want, b.RFees)}, nil
+			}
+			if want := sumU(b.RFees) + sumU(b.Fees); o.refundAll != want {
+				return rr, &mismatch{"fee-refund", fmt.Sprintf("RefundAllFee(): real %d, model %d (fees %v, refundFees %v)", o.refundAll, want, b.Fees, b.RFees)}, nil
 			}
 			if r.Ok || r.Cls == "revert" {
 				if got := wordInt(o.ret); got != r.Ret {
@@ -421,6 +496,13 @@ func replayOne(b *behaviour, inst int, deep bool) (*mismatch, int, error) {
 		}
 	}
 	return nil, evals, nil
+}
+
+func sumU(x []uint64) (s uint64) {
+	for _, v := range x {
+		s += v
+	}
+	return
 }
 
 func parseBehaviour(line string) (*behaviour, error) {
